@@ -146,4 +146,166 @@ theorem approvalToSimple_weight_conserved (split : Bool) (p : AProfile) (h : App
       ring
   rw [this p [] h]; simp [total]
 
+/-! ## RankedToPresenceCounts -/
+
+/-- the presence count of `k` is `Σ w · (number of places of the ballot naming k)`; `all_rankings`
+    walks the profile rank by rank, yet every occurrence is counted exactly once -/
+theorem presenceCounts_sum : SumOfImages rankedToPresenceCounts presence := by
+  intro p k
+  unfold rankedToPresenceCounts
+  have : (allRankings p).foldl (fun out t => addTo out t.1 t.2.2) []
+      = ((allRankings p).map (fun t => (t.1, t.2.2))).foldl (fun acc e => addTo acc e.1 e.2) [] := by
+    rw [List.foldl_map]
+  rw [this, toFun_foldl_addTo, toFun_allRankings]; simp
+
+theorem presenceCounts_additive (p₁ p₂ : RProfile) (k : Cand) :
+    toFun (rankedToPresenceCounts (p₁ ++ p₂)) k
+      = toFun (rankedToPresenceCounts p₁) k + toFun (rankedToPresenceCounts p₂) k :=
+  presenceCounts_sum.additive p₁ p₂ k
+
+theorem presenceCounts_additive_merged (p₁ p₂ : RProfile) (k : Cand) :
+    toFun (rankedToPresenceCounts (mergeDict (p₁ ++ p₂))) k
+      = toFun (rankedToPresenceCounts p₁) k + toFun (rankedToPresenceCounts p₂) k :=
+  presenceCounts_sum.additive_merged p₁ p₂ k
+
+/-- a duplicate-free ballot counts once for each candidate it names, shared rank or not -/
+theorem presence_of_nodup {b : Ballot} (hb : (ballotCands b).Nodup) (k : Cand) :
+    presence b k = if k ∈ ballotCands b then 1 else 0 := cnt_of_nodup hb k
+
+theorem presenceCounts_single (b : Ballot) (w : Rat) (k : Cand) :
+    toFun (rankedToPresenceCounts [(b, w)]) k = w * cnt (ballotCands b) k :=
+  presenceCounts_sum.single b w k
+
+theorem presenceCounts_is_dict (p : RProfile) : (dkeys (rankedToPresenceCounts p)).Nodup := by
+  unfold rankedToPresenceCounts
+  have : (allRankings p).foldl (fun out t => addTo out t.1 t.2.2) []
+      = ((allRankings p).map (fun t => (t.1, t.2.2))).foldl (fun acc e => addTo acc e.1 e.2) [] := by
+    rw [List.foldl_map]
+  rw [this]; exact nodup_foldl_addTo _ (by simp [dkeys])
+
+/-- the counts sum to `Σ w · (number of candidate places on the ballot)` -/
+theorem presenceCounts_weight (p : RProfile) :
+    total (rankedToPresenceCounts p) = wsum p (fun b => ((ballotCands b).length : Rat)) := by
+  unfold rankedToPresenceCounts
+  have : (allRankings p).foldl (fun out t => addTo out t.1 t.2.2) []
+      = ((allRankings p).map (fun t => (t.1, t.2.2))).foldl (fun acc e => addTo acc e.1 e.2) [] := by
+    rw [List.foldl_map]
+  rw [this, total_foldl_addTo, total_allRankings]; simp [total]
+
+/-! ## RankedToApprovalVotes -/
+
+theorem rankedToApproval_eq_accum :
+    rankedToApproval = accumOne (fun b : Ballot => some (canonSet (ballotCands b))) := rfl
+
+/-- a ranking counts, with its weight, for exactly the set of candidates it names -/
+theorem rankedToApproval_sum :
+    SumOfImages rankedToApproval (fun b k => if canonSet (ballotCands b) = k then 1 else 0) := by
+  rw [rankedToApproval_eq_accum]
+  intro p k
+  rw [accumOne_sum]; simp
+
+theorem rankedToApproval_additive (p₁ p₂ : RProfile) (k : Approval) :
+    toFun (rankedToApproval (p₁ ++ p₂)) k = toFun (rankedToApproval p₁) k + toFun (rankedToApproval p₂) k :=
+  rankedToApproval_sum.additive p₁ p₂ k
+
+theorem rankedToApproval_additive_merged (p₁ p₂ : RProfile) (k : Approval) :
+    toFun (rankedToApproval (mergeDict (p₁ ++ p₂))) k
+      = toFun (rankedToApproval p₁) k + toFun (rankedToApproval p₂) k :=
+  rankedToApproval_sum.additive_merged p₁ p₂ k
+
+/-- the image of a single ballot is its approved set: the key lists exactly the candidates of the
+    ballot, strictly increasing (the canonical form of the frozenset) -/
+theorem rankedToApproval_single (b : Ballot) (w : Rat) :
+    ∃ key, rankedToApproval [(b, w)] = [(key, w)] ∧ key.Pairwise (· < ·) ∧ ∀ c, c ∈ key ↔ c ∈ ballotCands b :=
+  ⟨canonSet (ballotCands b), by rw [rankedToApproval_eq_accum, accumOne_single],
+    sorted_canonSet _, fun c => mem_canonSet c _⟩
+
+/-- two rankings are accumulated under the same key iff they name the same candidates
+    (the case the overwrite defect e8fbfff lost) -/
+theorem rankedToApproval_same_key (b₁ b₂ : Ballot) :
+    canonSet (ballotCands b₁) = canonSet (ballotCands b₂) ↔ ∀ c, c ∈ ballotCands b₁ ↔ c ∈ ballotCands b₂ :=
+  canonSet_eq_iff _ _
+
+/-- total weight is conserved: every ranking, the empty one included, contributes its weight once -/
+theorem rankedToApproval_weight_conserved (p : RProfile) : total (rankedToApproval p) = total p := by
+  rw [rankedToApproval_eq_accum, accumOne_total, ← wsum_one]; simp
+
+theorem rankedToApproval_is_dict (p : RProfile) : (dkeys (rankedToApproval p)).Nodup := by
+  rw [rankedToApproval_eq_accum]; exact accumOne_nodup _ p
+
+/-! ## RankedToFirstNPreferences -/
+
+theorem firstN_eq_accum (n : Int) :
+    rankedToFirstN n = accumOne (fun b : Ballot => if b = [] then none else some (canonItems (pyTake n b))) := by
+  funext p
+  unfold rankedToFirstN accumOne
+  congr 1
+  funext acc bw
+  cases bw.1 <;> simp
+
+theorem firstN_sum (n : Int) :
+    SumOfImages (rankedToFirstN n)
+      (fun b k => if b ≠ [] ∧ canonItems (pyTake n b) = k then 1 else 0) := by
+  rw [firstN_eq_accum]
+  intro p k
+  rw [accumOne_sum]
+  apply wsum_congr
+  intro bw _
+  by_cases h : bw.1 = [] <;> simp [h]
+
+theorem firstN_additive (n : Int) (p₁ p₂ : RProfile) (k : List RankItem) :
+    toFun (rankedToFirstN n (p₁ ++ p₂)) k = toFun (rankedToFirstN n p₁) k + toFun (rankedToFirstN n p₂) k :=
+  (firstN_sum n).additive p₁ p₂ k
+
+theorem firstN_additive_merged (n : Int) (p₁ p₂ : RProfile) (k : List RankItem) :
+    toFun (rankedToFirstN n (mergeDict (p₁ ++ p₂))) k
+      = toFun (rankedToFirstN n p₁) k + toFun (rankedToFirstN n p₂) k :=
+  (firstN_sum n).additive_merged p₁ p₂ k
+
+/-- the key of a non-empty ballot holds exactly its first `n` places -/
+theorem firstN_single (n : Int) (b : Ballot) (w : Rat) (hb : b ≠ []) :
+    ∃ key, rankedToFirstN n [(b, w)] = [(key, w)] ∧ ∀ it, it ∈ key ↔ it ∈ pyTake n b := by
+  refine ⟨canonItems (pyTake n b), ?_, fun it => mem_canonBy _ it _⟩
+  rw [firstN_eq_accum, accumOne_single]; simp [hb]
+
+/-- for `n ≥ 0` the slice is the first `n` places -/
+theorem pyTake_nonneg {α : Type} (n : Nat) (l : List α) : pyTake (n : Int) l = l.take n := by
+  simp [pyTake]
+
+/-- total weight is conserved over the non-empty ballots -/
+theorem firstN_weight_conserved (n : Int) (p : RProfile) :
+    total (rankedToFirstN n p) = wsum p (fun b => if b = [] then 0 else 1) := by
+  rw [firstN_eq_accum, accumOne_total]
+  apply wsum_congr
+  intro bw _
+  by_cases h : bw.1 = [] <;> simp [h]
+
+theorem firstN_is_dict (n : Int) (p : RProfile) : (dkeys (rankedToFirstN n p)).Nodup := by
+  rw [firstN_eq_accum]; exact accumOne_nodup _ p
+
+/-  Full statement of the documented image (NOT true of the code, see `firstN_flat_image_witness`):
+      firstN_flat_image : ∀ n b, canonItems (pyTake n b) = (canonSet (ballotCands (pyTake n b))).map RankItem.one
+    i.e. the key is the approval set of the CANDIDATES standing at the first n places.  The code puts a
+    shared rank into the set as a nested frozenset.  Proved when the first n places are single candidates. -/
+theorem firstN_flat_image_partial (n : Int) (b : Ballot)
+    (h : ∀ it ∈ pyTake n b, ∃ c, it = RankItem.one c) :
+    canonItems (pyTake n b) = (canonSet (ballotCands (pyTake n b))).map RankItem.one := by
+  generalize pyTake n b = l at h
+  have hl : l = (ballotCands l).map RankItem.one := by
+    induction l with
+    | nil => rfl
+    | cons a t ih =>
+      obtain ⟨c, rfl⟩ := h a (by simp)
+      have := ih (fun it hit => h it (by simp [hit]))
+      simp only [ballotCands, List.flatMap_cons, RankItem.cands, List.singleton_append, List.map_cons] at this ⊢
+      rw [← this]
+  conv_lhs => rw [hl]
+  exact canonBy_map Nat.ble RankItem.le RankItem.one (fun a b e => by cases e; rfl) (fun a b => rfl) _
+
+/-- the known finding: with a shared rank among the first `n` places the key is a set containing a set -/
+theorem firstN_flat_image_witness :
+    ¬ (canonItems (pyTake 1 [RankItem.shared [1, 2], RankItem.one 3])
+        = (canonSet (ballotCands (pyTake 1 [RankItem.shared [1, 2], RankItem.one 3]))).map RankItem.one) := by
+  decide +kernel
+
 end VL.C13
